@@ -64,6 +64,13 @@ func loadKnown(prop string) []knownFinding {
 	return out
 }
 
+// outDir is where evidence and replay artefacts go: /verif, unless VERIF_OUT
+// redirects them (used when a check is pointed at a modified copy of the repository).
+func outDir() string { return envOr("VERIF_OUT", verifDir) }
+
+// replayKey, when set, restricts a run to reproducing one recorded violation.
+var replayKey string
+
 // Reporter collects violations and coverage of one check run.
 type Reporter struct {
 	mu       sync.Mutex
@@ -101,9 +108,19 @@ func (r *Reporter) matchKnown(key string) (knownFinding, bool) {
 func (r *Reporter) Violation(key, what string, replay map[string]interface{}) {
 	r.mu.Lock()
 	defer r.mu.Unlock()
+	if replayKey != "" {
+		// replay mode: only the recorded violation is of interest
+		if key == replayKey {
+			if r.newCount == 0 {
+				fmt.Printf("REPRODUCED property=%s key=%s\n  %s\n", r.Prop, key, oneLine(what))
+			}
+			r.newCount++
+		}
+		return
+	}
 	if k, ok := r.matchKnown(key); ok {
 		if r.knownHit[k.Key] == 0 {
-			fmt.Printf("KNOWN-FINDING: property=%s %s [key=%s]\n", r.Prop, oneLine(k.Desc), k.Key)
+			fmt.Printf("KNOWN-FINDING: property=%s %s [key=%s] replay=%s\n", r.Prop, oneLine(k.Desc), k.Key, r.writeReplay(key, what, replay))
 		}
 		r.knownHit[k.Key]++
 		return
@@ -112,6 +129,14 @@ func (r *Reporter) Violation(key, what string, replay map[string]interface{}) {
 	if _, dup := r.newKeys[key]; dup {
 		return
 	}
+	path := r.writeReplay(key, what, replay)
+	r.newKeys[key] = path
+	fmt.Printf("VIOLATION property=%s replay=%s\n", r.Prop, path)
+	fmt.Printf("  key=%s\n  %s\n", key, oneLine(what))
+}
+
+// writeReplay stores the artefact needed to reproduce one violation.
+func (r *Reporter) writeReplay(key, what string, replay map[string]interface{}) string {
 	if replay == nil {
 		replay = map[string]interface{}{}
 	}
@@ -120,13 +145,11 @@ func (r *Reporter) Violation(key, what string, replay map[string]interface{}) {
 	replay["what"] = what
 	b, _ := json.MarshalIndent(replay, "", " ")
 	sum := sha256.Sum256([]byte(r.Prop + "|" + key))
-	dir := filepath.Join(verifDir, "replays", r.Prop)
+	dir := filepath.Join(outDir(), "replays", r.Prop)
 	os.MkdirAll(dir, 0o755)
 	path := filepath.Join(dir, hex.EncodeToString(sum[:8])+".json")
 	os.WriteFile(path, b, 0o644)
-	r.newKeys[key] = path
-	fmt.Printf("VIOLATION property=%s replay=%s\n", r.Prop, path)
-	fmt.Printf("  key=%s\n  %s\n", key, oneLine(what))
+	return path
 }
 
 func oneLine(s string) string {
@@ -153,6 +176,14 @@ func (r *Reporter) Infra(msg string) {
 
 // Finish writes the evidence file and exits with the check's status.
 func (r *Reporter) Finish() {
+	if replayKey != "" {
+		cleanup()
+		if r.newCount > 0 {
+			os.Exit(1)
+		}
+		fmt.Printf("NOT REPRODUCED property=%s key=%s (the recorded violation does not occur on the current tree)\n", r.Prop, replayKey)
+		os.Exit(0)
+	}
 	if len(r.infraErr) > 0 {
 		for _, e := range r.infraErr {
 			fmt.Fprintln(os.Stderr, "verif: harness/infrastructure error:", e)
@@ -189,8 +220,8 @@ func (r *Reporter) Finish() {
 		"violations":  r.newCount,
 	}
 	b, _ := json.MarshalIndent(ev, "", " ")
-	os.MkdirAll(filepath.Join(verifDir, "evidence"), 0o755)
-	if err := os.WriteFile(filepath.Join(verifDir, "evidence", r.Prop+".json"), append(b, '\n'), 0o644); err != nil {
+	os.MkdirAll(filepath.Join(outDir(), "evidence"), 0o755)
+	if err := os.WriteFile(filepath.Join(outDir(), "evidence", r.Prop+".json"), append(b, '\n'), 0o644); err != nil {
 		fatalInfra("writing evidence: %v", err)
 	}
 	cleanup()
